@@ -35,6 +35,7 @@ LEVEL_TEXT = (
     "each chain its own temperature and likelihood. Not a proof: instances outside the generated bounds are not covered, "
     "and convergence speed is not addressed."
 )
+LEVEL_TEXT += " Session 3: instances of ploidy 5-6 over three sites (8-12 haplotypes; copy-number patterns whose recombinants differ in their number of options), and the orchestration monitor records EVERY (genotype, temp) kernel of the mutation / structural modules that the sampler loop may call directly, with the callee's defaults applied."
 LEVEL_NOTE = "Trusts the independent likelihood/prior oracle, and that .py_func bodies equal the compiled code (checked per run by seeded cross-validation of sampled rows against the compiled kernels)."
 RULE = (
     "case = one extracted kernel row (instance, ordered state, move, h/j or interval) or one exchange / orchestration "
